@@ -50,7 +50,7 @@ ASSUMPTIONS = [
 ]
 # soft caps; the quick tier is count-limited (about 30 CPU-s per worker on an
 # idle 16-core machine), the cap only matters on an overloaded machine
-BUDGET_S = {"quick": 150, "thorough": 840}
+BUDGET_S = {"quick": 100, "thorough": 840}
 REQUIRED_LABELS = {
     "quick": ["dfs", "hyp", "trial_built", "pattern_group", "list_limit",
               "layer_indexes", "outside_limit_layer", "outside_index_layer",
